@@ -12,6 +12,7 @@ mod pause;
 mod props;
 mod reward;
 mod runner;
+mod selftest;
 mod token;
 mod unbondlc;
 
@@ -75,7 +76,7 @@ fn main() {
             }
             code
         }
-        "selftest" => props::selftest(),
+        "selftest" => selftest::run(),
         _ => usage(),
     };
     std::process::exit(code)
